@@ -129,7 +129,8 @@ def copt_dt(d):
 
 
 def coptz2(v):
-    return "None" if v is None else f"(Some ({cz(v[0])}, {cz(v[1])}))"
+    # a missing attribute is printed as -999 (never what a model predicts)
+    return "None" if v is None else f"(Some ({cz(-999 if v[0] is None else v[0])}, {cz(-999 if v[1] is None else v[1])}))"
 
 
 def cshape(s):
@@ -174,6 +175,10 @@ def fam_rms(st):
                 nm, p["exponent"] = "exponent", 3.0
             elif r < 0.22:
                 nm, p["eps_kind"] = "eps-not-constant", "input"
+            elif r < 0.3:
+                # attribute absent = operator default (keepdims 1 / noop_with_empty_axes 0): same function, but the pattern
+                # names both attributes, so the rule must leave the model alone (or, if it ever fuses, still agree)
+                nm, p["reduce_attrs"] = "reduce-attr-absent", pick(rng, [("keepdims",), ("noop_with_empty_axes",), ()])
             insts.append((p, nm, None))
         # finding classes
         insts.append((dict(shape=[2, 3, 8], xdtype="float32", compute=None, cast_back=None, sdtype="float32", scale_cast=None,
@@ -195,7 +200,9 @@ def fam_rms(st):
                            and (p["compute"] or p["xdtype"]) in ("float32", "float64") and eps_ok)
             expect = struct_ok and model_fires
             cls = (variant, len(p["shape"]), p["xdtype"], p["compute"], p["cast_back"], p["sdtype"], p["mul_order"], tuple(p["eps_shape"]), near, finding is not None)
-            fired, m2 = probe(st, variant, g, fn, p, expect=expect, finding=finding, fused_ops=(fused,), cls=cls)
+            in_scale = pick(rng, [1.0, 1.0, 1e-3])       # rows of magnitude 1e-3: variance ~ epsilon, a wrong epsilon is visible
+            p["input_scale"] = in_scale
+            fired, m2 = probe(st, variant, g, fn, p, expect=expect, finding=finding, fused_ops=(fused,), cls=cls + (in_scale,), scale=in_scale)
             if fired is None or finding is not None:
                 continue
             obs = None
@@ -220,7 +227,7 @@ def fam_skip(st):
     n = 16 if ctx.tier == "quick" else 200
     for kind, fn, fused in (("rms", f_rms, "SkipSimplifiedLayerNormalization"), ("ln", f_ln, "SkipLayerNormalization")):
         fam = "skip_rms_norm" if kind == "rms" else "skip_layer_norm"
-        for i in range(n):
+        for i in range(n + 6):
             B, S, D = rng.randrange(1, 4), rng.randrange(1, 5), pick(rng, [1, 2, 4, 8, 16, 17])
             p = dict(kind=kind, B=B, S=S, D=D, dtype=pick(rng, ["float32", "float32", "float16"]),
                      bias=[None, "pre", "post"][i % 3], add_order=(i // 3) % 2,
@@ -228,6 +235,13 @@ def fam_skip(st):
                      stash_type=pick(rng, [None, None, 1]))
             near = None
             r = rng.random()
+            forced = i >= n
+            if forced:
+                # always present: every bias mode with the attributes ABSENT (epsilon -> operator default 1e-5, stash_type -> 1)
+                # or epsilon explicit, on low-variance rows so that a wrong epsilon in the fused node is visible
+                p.update(D=pick(rng, [4, 8, 16]), dtype="float32", epsilon=None if i - n < 3 else 1e-3, stash_type=None)
+                D = p["D"]
+                r = 1.0
             ishape, sshape, gshape, bshape = [B, S, D], [B, S, D], [D], [D]
             if r < 0.07:
                 near, ishape, sshape = "rank2", [S, D], [S, D]
@@ -244,6 +258,11 @@ def fam_skip(st):
             elif r < 0.32:
                 near = "axis"
                 p["axis"] = 2          # same axis, but the pattern requires the attribute value -1
+            elif r < 0.4:
+                near = "axis"
+                p["axis"] = None       # attribute absent (operator default -1): same function, pattern names axis=-1
+            in_scale = 1e-3 if forced else pick(rng, [1.0, 1.0, 1e-3])
+            p["input_scale"] = in_scale
             g = N.skip_model(p)
             model_in = (ishape, sshape, gshape, [D] if kind == "ln" else None, bshape if p["bias"] else None)
             expect_py = near is None
@@ -252,8 +271,9 @@ def fam_skip(st):
                 # rule SET: the pre-bias rule refuses, the no-bias rule then matches with input := Add(input, bias) of shape [B,S,D]
                 expect_py, model_has_bias = True, False
                 model_in = (ishape, sshape, gshape, model_in[3], None)
-            cls = (fam, p["bias"], p["add_order"], p["dtype"], p["epsilon"] is None, p["use_sum"], near, D == 1, B == 1)
-            fired, m2 = probe(st, fam, g, fn, p, expect=expect_py, fused_ops=(fused,), cls=cls)
+            cls = (fam, p["bias"], p["add_order"], p["dtype"], p["epsilon"] is None, p["use_sum"], near, D == 1, B == 1, in_scale,
+                   p.get("axis", -1), p["stash_type"])
+            fired, m2 = probe(st, fam, g, fn, p, expect=expect_py, fused_ops=(fused,), cls=cls, scale=in_scale)
             if fired is None:
                 continue
             if fired:
@@ -290,12 +310,16 @@ def fam_layer_norm(st):
             near, p["axes"] = "axes", (0,)
         elif r < 0.16 and p["sq"] == "pow":
             near, p["exponent"] = "exponent", 3.0
-        elif r < 0.4:
+        elif r < 0.22:
+            near, p["keepdims_attr"] = "keepdims-absent", False      # operator default 1: same function, pattern names keepdims=1
+        elif r < 0.45:
             p["bias_shape"] = [shape[-1]]          # LayerNormBiasFusion fires on the result of LayerNormFusion
+        in_scale = pick(rng, [1.0, 1.0, 1e-3])
+        p["input_scale"] = in_scale
         g = N.layer_norm_model(p)
         expect = near is None and p["dtype"] in ("float32", "float64")
         cls = (fam, rank, p["dtype"], p["sq"], p["norm"], tuple(p["eps_shape"]), near, "bias_shape" in p)
-        fired, m2 = probe(st, fam, g, fn, p, expect=expect, fused_ops=("LayerNormalization",), cls=cls)
+        fired, m2 = probe(st, fam, g, fn, p, expect=expect, fused_ops=("LayerNormalization",), cls=cls + (in_scale,), scale=in_scale)
         if fired is None:
             continue
         obs = None
@@ -311,19 +335,27 @@ def fam_layer_norm(st):
         if near is None:
             st.add_case("norm", f"CLn {DT[p['dtype']]} true {coptz2(obs)}", (fam, p, obs))
     # LayerNormalization + bias (existing node), axis / epsilon / stash_type forwarded
-    for i in range(6 if ctx.tier == "quick" else 60):
+    nlb = 6 if ctx.tier == "quick" else 60
+    for i in range(nlb + 4):
         shape = [rng.randrange(1, 4), rng.randrange(1, 4), pick(rng, [2, 8, 17])]
         axis = pick(rng, [None, -1, -1, 1, 2])
         p = dict(shape=shape, dtype=pick(rng, ["float32", "float16"]), axis=axis, epsilon=pick(rng, [None, 1e-3]),
                  order=pick(rng, [0, 0, 0, 1]))
+        if i >= nlb:      # always present: epsilon / axis absent or explicit, float32, the rule fires
+            p.update(dtype="float32", order=0, epsilon=(None, 1e-3)[(i - nlb) % 2], axis=(None, 1)[(i - nlb) // 2])
+            axis = p["axis"]
         p["bias_shape"] = shape[(axis if axis is not None else -1):]
         g = N.ln_bias_model(p)
+        in_scale = 1e-3 if i >= nlb else pick(rng, [1.0, 1e-3])          # epsilon absent -> the ONNX default 1e-5 must survive the rewrite
+        p["input_scale"] = in_scale
         fired, m2 = probe(st, fam, g, fn, p, expect=p["order"] == 0, fused_ops=("LayerNormalization",),
-                          cls=(fam, "ln+bias", p["dtype"], axis, p["order"]))
+                          cls=(fam, "ln+bias", p["dtype"], axis, p["order"], p["epsilon"], in_scale), scale=in_scale)
         if fired and p["order"] == 0:
             a = attr_of(m2, "LayerNormalization")
             if a.get("axis") != axis and not (axis is None and "axis" not in a):
                 ctx.tie_broken("correspondence", f"{fam}:bias:axis", f"{p}: attributes {a}")
+            if ("epsilon" in a) != (p["epsilon"] is not None) or (p["epsilon"] is not None and not feq(a["epsilon"], float(np.float32(p["epsilon"])), 1e-5)):
+                ctx.tie_broken("correspondence", f"{fam}:bias:epsilon", f"{p}: attributes {a} (epsilon must be forwarded, or stay absent = default 1e-5)")
             if len(find(m2, "LayerNormalization")[0][3]) != 3:
                 ctx.tie_broken("correspondence", f"{fam}:bias:inputs", f"{p}")
     # finding classes
@@ -387,22 +419,26 @@ def fam_bias_gelu(st):
         elif r < 0.2:
             p["bias_shape"], brank = [], 0
         g = M.bias_gelu_model(p)
-        # the rule is commuted: either operand of the Add may play the role of the rank-1 `bias`
+        # the rule is commuted: either operand of the Add may play the role of `bias`
         a_sh, b_sh = p["input_shape"], p["bias_shape"]
-        roles = [(i_, b_) for i_, b_ in ((a_sh, b_sh), (b_sh, a_sh)) if len(b_) == 1]
-        bad_role = any(len(i_) == 0 or i_[-1] != b_[0] for i_, b_ in roles)
-        finding = "C19:bias_gelu:bias-length-differs-from-input-last-dim" if (bad_role and approx != "tanh") else None
-        model_rank = 1 if roles else brank
-        expect = approx != "tanh" and bool(roles)
+        roles = [(a_sh, b_sh), (b_sh, a_sh)]                      # (input, bias)
+        good = [r_ for r_ in roles if len(r_[1]) == 1 and len(r_[0]) >= 1 and r_[0][-1] == r_[1][0]]
+        bad_role = any(len(b_) == 1 and (len(i_) == 0 or i_[-1] != b_[0]) for i_, b_ in roles)
+        finding = "C19:bias_gelu:bias-length-differs-from-input-last-dim" if (bad_role and not good and approx != "tanh") else None
+        expect = approx != "tanh" and bool(good)
         fired, m2 = probe(st, fam, g, fn, p, expect=expect, finding=finding, fused_ops=("BiasGelu",),
                           cls=(fam, rank, p["dtype"], p["gelu"], p["order"], approx, brank, finding is not None), scale=2.0)
-        if fired is None or finding is not None:
+        if fired is None:
             continue
         ca = {"tanh": "ApproxTanh", "none": "ApproxNone", None: "ApproxAbsent"}[approx]
-        st.add_case("bgelu", f"({ca}, Some {cnat(model_rank)}, {cbool(fired)})", (fam, p, fired))
-        if fired and not p["bias_const"] and sorted(find(m2, "BiasGelu", MS)[0][3]) != ["bias", "input"]:
-            ctx.tie_broken("correspondence", f"{fam}:inputs", f"{p}: {find(m2, 'BiasGelu', MS)[0][3]}")
-    # Coq witness of C19_bias_gelu_check_insufficient_refuted replayed: row of length 1 against a bias of length 2 (and relatives)
+        if fired:
+            ins = find(m2, "BiasGelu", MS)[0][3]
+            used = (a_sh, b_sh) if ins[0] == "input" else (b_sh, a_sh)
+            st.add_case("bgelu", f"({ca}, {cshape(used[1])}, {cshape(used[0])}, true)", (fam, p, ins))
+        else:
+            for i_, b_ in roles:
+                st.add_case("bgelu", f"({ca}, {cshape(b_)}, {cshape(i_)}, false)", (fam, p, "not fired"))
+    # Coq witness of C19_bias_gelu_check_old_insufficient_refuted replayed: row of length 1 against a bias of length 2 (and relatives)
     key = "C19:bias_gelu:bias-length-differs-from-input-last-dim"
     for ish, bsh, osh in (([1], [2], [2]), ([2, 3, 1], [8], [2, 3, 8]), ([2, 3, 8], [1], [2, 3, 8])):
         for gel in ("onnx", "contrib"):
@@ -505,11 +541,57 @@ def fam_matmul(st):
         probe(st, fam, M.matmul_div_model(p), fn, p, finding=key, cls=(fam, "finding", key))
 
     # ---- Transpose on an operand / on the output
-    def operand_case(pos, mm, perm, attrs, xs, ys, finding=None, rank=None):
-        p = dict(dtype=pick(rng, ["float32", "float32", "float16"]), xshape=xs, yshape=ys, mm=mm, pos=pos, perm=perm, attrs=attrs)
+    def inv_apply(perm, target):
+        """raw shape r with [r[i] for i in perm] == target"""
+        r = [None] * len(perm)
+        for i, pi in enumerate(perm):
+            r[pi] = target[i]
+        return r
+
+    def operand_instance(nrank, r2, pos, mm, perm, tb, t, tbo, to, alpha):
+        """(Fused)MatMul with a Transpose(perm | absent) on operand `pos` (rank nrank); the other operand has rank r2.
+        tb/t: transBatch/trans flags of the transposed side, tbo/to of the other side.  Returns params or None."""
+        dims = rng.sample(dims_pool, nrank)
+        eperm = perm if perm is not None else list(range(nrank))[::-1]
+        sp = [dims[i] for i in eperm]
+        spp = [sp[i] for i in eff_perm(tb, t, nrank)] if nrank >= 2 else sp
+        nn = 7
+        if nrank == 1:
+            K = spp[0]
+            batch = []
+            M_ = N_ = None
+        elif pos == 1:
+            batch, M_, K = spp[:-2], spp[-2], spp[-1]
+        else:
+            batch, K, N_ = spp[:-2], spp[-2], spp[-1]
+        # effective (after its own flags) shape of the other operand
+        if r2 == 1:
+            oeff = [K]
+        else:
+            core = [K, nn] if pos == 1 else [nn, K]
+            nb = r2 - 2
+            bd = []
+            for j in range(nb):                       # right-aligned broadcast against `batch`
+                k = len(batch) - nb + j
+                bd.append(pick(rng, [batch[k], batch[k], 1]) if k >= 0 else rng.randrange(1, 3))
+            oeff = bd + core
+        oraw = inv_apply(eff_perm(tbo, to, r2), oeff) if r2 >= 2 else oeff
+        side, oside = ("A", "B") if pos == 1 else ("B", "A")
+        attrs = {}
+        for flag, nm in ((tb, "transBatch" + side), (t, "trans" + side), (tbo, "transBatch" + oside), (to, "trans" + oside)):
+            if flag:
+                attrs[nm] = 1
+        if alpha is not None:
+            attrs["alpha"] = alpha
+        xs, ys = (dims, oraw) if pos == 1 else (oraw, dims)
+        return dict(dtype=pick(rng, ["float32", "float32", "float16"]), xshape=xs, yshape=ys, mm=mm, pos=pos, perm=perm, attrs=attrs), nrank, r2
+
+    def operand_case(inst, finding=None):
+        p, nrank, r2 = inst
         g = M.transpose_matmul_model(p)
-        nrank = len(xs if pos == 1 else ys)
-        cls = (fam, "operand", pos, mm, nrank, None if perm is None else tuple(perm), tuple(sorted(attrs.items())), finding is not None)
+        attrs, pos, mm, perm = p["attrs"], p["pos"], p["mm"], p["perm"]
+        cls = (fam, "operand", pos, mm, nrank, r2, "absent" if perm is None else tuple(perm),
+               tuple(sorted(k for k in attrs if k != "alpha")), "alpha" in attrs, finding is not None)
         fired, m2 = probe(st, fam, g, fn, p, expect=None, finding=finding, cls=cls)
         if fired is None or finding is not None:
             return
@@ -519,12 +601,37 @@ def fam_matmul(st):
             obs = a
             if find(m2, "FusedMatMul", MS)[0][3] != ["x", "y"] or not feq(a.get("alpha", 1.0), attrs.get("alpha", 1.0)):
                 ctx.tie_broken("correspondence", f"{fam}:operand", f"{p}: inputs/alpha changed: {find(m2, 'FusedMatMul', MS)[0]}")
-        st.add_case("mm", f"COperand {cbool(mm == 'FusedMatMul')} {cnat(pos)} {cperm(perm)} (Some {cnat(nrank)}) {cattrs(attrs)} "
+        st.add_case("mm", f"COperand {cbool(mm == 'FusedMatMul')} {cnat(pos)} {cperm(perm)} (Some {cnat(nrank)}) (Some {cnat(r2)}) {cattrs(attrs)} "
                           f"{'None' if obs is None else '(Some ' + cattrs(obs) + ')'}", (p, obs))
 
     dims_pool = [2, 3, 4, 5, 6]
-    count = 0
-    target = 40 if quick else 400
+    insts = []
+    # (a) Transpose WITHOUT perm (default: reverse all axes) and with the last-two swap, every rank pair incl. mixed ranks
+    #     and 1-D, both positions, plain and already-fused consumer with each trans flag combination
+    grid = []
+    for nrank in (1, 2, 3, 4):
+        for r2 in (1, 2, 3, 4):
+            for pos in (1, 2):
+                for mm in ("MatMul", "FusedMatMul"):
+                    for perm_kind in ("absent", "swap"):
+                        grid.append((nrank, r2, pos, mm, perm_kind))
+    rng.shuffle(grid)
+    keep_absent = [c for c in grid if c[4] == "absent"]
+    keep_swap = [c for c in grid if c[4] == "swap"]
+    if quick:
+        keep_absent = [c for c in keep_absent if c[0] >= 2][:36] + [c for c in keep_absent if c[0] == 1][:4]
+        keep_swap = keep_swap[:24]
+    for nrank, r2, pos, mm, perm_kind in keep_absent + keep_swap:
+        perm = None if perm_kind == "absent" else (eff_perm(0, 1, nrank) if nrank >= 2 else [0])
+        fusedmm = mm == "FusedMatMul"
+        t = rng.randrange(2) if fusedmm and nrank >= 2 else 0
+        to = rng.randrange(2) if fusedmm and r2 >= 2 and nrank >= 2 else 0
+        if r2 == 1 or nrank == 1:
+            t = to = 0                        # trans flags on 1-D operands: onnxruntime's own behaviour, not this rule's
+        tbo = rng.randrange(2) if fusedmm and r2 == nrank and nrank >= 3 and rng.random() < 0.3 else 0
+        alpha = 0.5 if fusedmm and rng.random() < 0.3 else None
+        insts.append(operand_instance(nrank, r2, pos, mm, perm, 0, t, tbo, to, alpha))
+    # (b) the perms the batch rules accept (+ random others), equal ranks, every (transBatch, trans) of the transposed side
     combos = []
     for nrank in (2, 3, 4, 5):
         perms = list(itertools.permutations(range(nrank))) if nrank <= 4 else None
@@ -532,63 +639,61 @@ def fam_matmul(st):
             for mm in ("MatMul", "FusedMatMul"):
                 for tb in ((0, 1) if mm == "FusedMatMul" and nrank >= 3 else (0,)):
                     for t in ((0, 1) if mm == "FusedMatMul" else (0,)):
-                        # the perms that some rule accepts + a few others
                         cand = [eff_perm(0, 1, nrank), eff_perm(1, 0, nrank), eff_perm(1, 1, nrank),
                                 [nrank - 1] + list(range(nrank - 1)), [nrank - 2] + list(range(nrank - 2)) + [nrank - 1],
-                                [nrank - 1] + list(range(1, nrank - 1)) + [0]]
+                                [nrank - 1] + list(range(1, nrank - 1)) + [0], list(range(nrank))]
                         cand.append(list(pick(rng, perms)) if perms else rng.sample(range(nrank), nrank))
-                        if nrank == 2:
-                            cand.append(None)
                         for perm in cand:
-                            if perm is not None and (sorted(perm) != list(range(nrank))):
-                                continue
-                            combos.append((nrank, pos, mm, tb, t, perm))
+                            if sorted(perm) == list(range(nrank)):
+                                combos.append((nrank, pos, mm, tb, t, perm))
     rng.shuffle(combos)
     seen = set()
+    count, target = 0, (40 if quick else 400)
     for nrank, pos, mm, tb, t, perm in combos:
-        keyc = (nrank, pos, mm, tb, t, None if perm is None else tuple(perm))
+        keyc = (nrank, pos, mm, tb, t, tuple(perm))
         if keyc in seen or count >= target:
             continue
         seen.add(keyc)
-        dims = rng.sample(dims_pool, nrank) if nrank <= 5 else None
-        eperm = perm if perm is not None else list(range(nrank))[::-1]
-        sp = [dims[i] for i in eperm]
-        spp = [sp[i] for i in eff_perm(tb, t, nrank)]
-        nn = 7
-        if pos == 1:
-            xs, ys = dims, spp[:-2] + [spp[-1], nn]
-        else:
-            xs, ys = spp[:-2] + [nn, spp[-2]], dims
-        side = "A" if pos == 1 else "B"
-        attrs = {}
-        if tb:
-            attrs["transBatch" + side] = 1
-        if t:
-            attrs["trans" + side] = 1
-        if mm == "FusedMatMul" and rng.random() < 0.3:
-            attrs["alpha"] = 0.5
-        finding = None
-        if mm == "FusedMatMul" and nrank == 2 and perm == [0, 1] and not tb:
-            finding = "C19:fused_matmul:batch-rule-on-rank2-identity-perm"
-        operand_case(pos, mm, perm, attrs, xs, ys, finding=finding)
+        fusedmm = mm == "FusedMatMul"
+        to = rng.randrange(2) if fusedmm else 0
+        tbo = rng.randrange(2) if fusedmm and nrank >= 3 and rng.random() < 0.3 else 0
+        alpha = 0.5 if fusedmm and rng.random() < 0.3 else None
+        insts.append(operand_instance(nrank, nrank, pos, mm, perm, tb, t, tbo, to, alpha))
         count += 1
-    # rank-2 identity perm explicitly (Coq witness of C19_batch_rule_rank2_refuted)
+    for inst in insts:
+        p_, nr_, r2_ = inst
+        # Transpose without perm feeding a FusedMatMul that the simple rule refuses: the batch rules index attributes["perm"]
+        kerr = p_["mm"] == "FusedMatMul" and p_["perm"] is None and (nr_ != 2 or r2_ == 1)
+        operand_case(inst, finding="C19:fused_matmul:batch-rule-transpose-without-perm-raises-KeyError" if kerr else None)
+    ctx.cover(fused_matmul_operand_instances=len(insts),
+              fused_matmul_perm_absent=sum(1 for i in insts if i[0]["perm"] is None),
+              fused_matmul_mixed_rank=sum(1 for i in insts if i[1] != i[2]))
+    # classes of the (fixed) findings, probed on every run
     for pos in (1, 2):
-        operand_case(pos, "FusedMatMul", [0, 1], {}, [3, 4], [4, 5], finding="C19:fused_matmul:batch-rule-on-rank2-identity-perm")
-    # 1-d operands
-    p = dict(dtype="float32", xshape=[4, 3], yshape=[4], mm="MatMul", pos=1, perm=[1, 0], attrs={})
-    probe(st, fam, M.transpose_matmul_model(p), fn, p, finding="C19:fused_matmul:transposed-operand-with-1d-other-operand", cls=(fam, "finding", "1d-other"))
-    p = dict(dtype="float32", xshape=[4], yshape=[4, 5], mm="MatMul", pos=1, perm=[0], attrs={})
-    probe(st, fam, M.transpose_matmul_model(p), fn, p, finding="C19:fused_matmul:rank1-transpose-perm-raises", cls=(fam, "finding", "perm[0]"))
+        operand_case((dict(dtype="float32", xshape=[3, 4], yshape=[4, 5], mm="FusedMatMul", pos=pos, perm=[0, 1], attrs={}), 2, 2),
+                     finding="C19:fused_matmul:batch-rule-on-rank2-identity-perm")
+    operand_case((dict(dtype="float32", xshape=[4, 3], yshape=[4], mm="MatMul", pos=1, perm=[1, 0], attrs={}), 2, 1),
+                 finding="C19:fused_matmul:transposed-operand-with-1d-other-operand")
+    operand_case((dict(dtype="float32", xshape=[4], yshape=[4, 5], mm="MatMul", pos=1, perm=[0], attrs={}), 1, 2),
+                 finding="C19:fused_matmul:rank1-transpose-perm-raises")
 
-    # output transposes
-    for i in range(10 if quick else 60):
+    # ---- Transpose of the output: rank pairs incl. mixed, perm absent / explicit, every flag combination
+    for i in range(16 if quick else 120):
         mm = ("MatMul", "FusedMatMul")[i % 2]
         tA, tB = (rng.randrange(2), rng.randrange(2)) if mm == "FusedMatMul" else (0, 0)
         m_, k_, n_ = rng.sample([2, 3, 4, 5], 3)
-        xs = [k_, m_] if tA else [m_, k_]
-        ys = [n_, k_] if tB else [k_, n_]
-        perm = pick(rng, [None, [1, 0], [1, 0], [0, 1]])
+        rx, ry = pick(rng, [(2, 2), (2, 2), (2, 2), (3, 3), (3, 2), (2, 3), (1, 2), (2, 1)])
+        if 1 in (rx, ry):
+            tA = tB = 0
+        xs = [k_] if rx == 1 else ([k_, m_] if tA else [m_, k_])
+        ys = [k_] if ry == 1 else ([n_, k_] if tB else [k_, n_])
+        bsz = rng.randrange(2, 4)
+        if rx == 3:
+            xs = [bsz] + xs
+        if ry == 3:
+            ys = [bsz] + ys
+        orank = max(rx, ry) if min(rx, ry) >= 2 else max(rx, ry) - 1
+        perm = pick(rng, [None, None, list(range(orank))[::-1], eff_perm(0, 1, orank) if orank >= 2 else [0], list(range(orank))])
         attrs = {}
         if tA:
             attrs["transA"] = 1
@@ -596,28 +701,23 @@ def fam_matmul(st):
             attrs["transB"] = 1
         if mm == "FusedMatMul" and rng.randrange(2):
             attrs["alpha"] = 0.5
-        rank3 = rng.random() < 0.15
-        if rank3:
-            xs, ys, perm = [2] + xs, [2] + ys, [0, 2, 1]
         p = dict(dtype="float32", xshape=xs, yshape=ys, mm=mm, pos=0, perm=perm, attrs=attrs)
-        finding = "C19:fused_matmul:FusedMatMulTranspose:transA!=transB" if (tA != tB and perm != [0, 1] and not rank3) else None
+        finding = "C19:fused_matmul:FusedMatMulTranspose:transA!=transB" if (tA != tB and (rx, ry) == (2, 2) and perm != [0, 1]) else None
         fired, m2 = probe(st, fam, M.transpose_matmul_model(p), fn, p, expect=None, finding=finding,
-                          cls=(fam, "output", mm, tA, tB, None if perm is None else tuple(perm), rank3))
-        if fired is None or finding is not None:
+                          cls=(fam, "output", mm, tA, tB, "absent" if perm is None else tuple(perm), rx, ry))
+        if fired is None:
             continue
         obs = None
         if fired and not find(m2, "Transpose"):
             obs = attr_of(m2, "FusedMatMul", MS)
             if find(m2, "FusedMatMul", MS)[0][3] != ["y", "x"] or not feq(obs.get("alpha", 1.0), attrs.get("alpha", 1.0)):
                 ctx.tie_broken("correspondence", f"{fam}:output", f"{p}: {find(m2, 'FusedMatMul', MS)[0]}")
-        rk = 3 if rank3 else 2
-        st.add_case("mm", f"COutput {cperm(perm)} (Some {cnat(rk)}) (Some {cnat(rk)}) {cattrs(attrs)} "
+        st.add_case("mm", f"COutput {cperm(perm)} (Some {cnat(rx)}) (Some {cnat(ry)}) {cattrs(attrs)} "
                           f"{'None' if obs is None else '(Some ' + cattrs(obs) + ')'}", (p, obs))
-    # Coq witness of C19_fused_matmul_transpose_output_refuted: transA=1, transB=0, x: 1x2, y: 1x1
-    p = dict(dtype="float32", xshape=[1, 2], yshape=[1, 1], mm="FusedMatMul", pos=0, perm=[1, 0], attrs={"transA": 1})
-    probe(st, fam, M.transpose_matmul_model(p), fn, p, finding="C19:fused_matmul:FusedMatMulTranspose:transA!=transB", cls=(fam, "finding", "witness"))
-    p = dict(dtype="float32", xshape=[2, 2], yshape=[2, 2], mm="FusedMatMul", pos=0, perm=[1, 0], attrs={"transA": 1})
-    probe(st, fam, M.transpose_matmul_model(p), fn, p, finding="C19:fused_matmul:FusedMatMulTranspose:transA!=transB", cls=(fam, "finding", "witness-square"))
+    # Coq witnesses of C19_fused_matmul_transpose_output_old_refuted: transA=1, transB=0, x: 1x2, y: 1x1; and a square one
+    for xs, ys in (([1, 2], [1, 1]), ([2, 2], [2, 2])):
+        p = dict(dtype="float32", xshape=xs, yshape=ys, mm="FusedMatMul", pos=0, perm=[1, 0], attrs={"transA": 1})
+        probe(st, fam, M.transpose_matmul_model(p), fn, p, finding="C19:fused_matmul:FusedMatMulTranspose:transA!=transB", cls=(fam, "finding", "witness", tuple(xs)))
 
 
 # ============================================================================================= rotary embedding
@@ -673,6 +773,9 @@ def fam_rotary(st):
     p = dict(dtype="float32", xshape=[2, 4, 3, 8], fshape=[1, 3, 4])
     probe(st, "rules.fusion:rotary_embedding", M.rotary23_model(p), f_rot23, p,
           finding="C19:rules.fusion:rotary_embedding:freqs-batch-broadcast", cls=("rot23", "finding"))
+    p = dict(domain="ms", dtype="float32", B=2, H=4, S=3, D=8, r=4, num_heads_absent=True)
+    probe(st, "partial_rotary_embedding", M.partial_rotary_model(p), f_prot, p,
+          finding="C19:partial_rotary_embedding:num_heads-absent", cls=("partial", "finding"))
     # partial rotary
     for i in range(8 if ctx.tier == "quick" else 80):
         std = i % 2 == 1
@@ -693,15 +796,23 @@ def fam_rotary(st):
         elif u < 0.45:
             il = 0
             p["attrs"] = {"interleaved": 0}
+        elif u < 0.55:
+            near = "rotary_embedding_dim-present"
+            p["attrs"] = {"rotary_embedding_dim": r}
+        finding = None
+        if near is None and rng.random() < 0.25:
+            p["num_heads_absent"] = True          # optional for a 4-D input; required by ORT's contrib op once rotary_embedding_dim is set
+            if not std:
+                finding = "C19:partial_rotary_embedding:num_heads-absent"
         g = M.partial_rotary_model(p)
         fn = f_prot23 if std else f_prot
-        fired, m2 = probe(st, fam, g, fn, p, expect=near is None, cls=(fam, D, r, near, il))
-        if fired is None:
+        fired, m2 = probe(st, fam, g, fn, p, expect=near is None, finding=finding, cls=(fam, D, r, near, il, p.get("num_heads_absent", False)))
+        if fired is None or finding is not None:
             continue
         a = attr_of(m2, "RotaryEmbedding", "" if std else MS)
         obs = a.get("rotary_embedding_dim") if fired else None
-        st.add_case("rot", f"CPartial {cz(r)} {cz(p.get('start2', r))} false {copt(il, cz)} {copt(obs, cz)}", (fam, p, obs))
-        if fired and (a.get("num_heads") != H or find(m2, "RotaryEmbedding")[0][3][0] != "x"):
+        st.add_case("rot", f"CPartial {cz(r)} {cz(p.get('start2', r))} {cbool(near == 'rotary_embedding_dim-present')} {copt(il, cz)} {copt(obs, cz)}", (fam, p, obs))
+        if fired and ((a.get("num_heads") != H and not p.get("num_heads_absent")) or find(m2, "RotaryEmbedding")[0][3][0] != "x"):
             ctx.tie_broken("correspondence", f"{fam}:attrs", f"{p}: {a}")
 
 
@@ -756,7 +867,7 @@ def fam_sdpa(st):
         u = rng.random()
         if u < 0.08:
             near = "softmax-axis"
-            p["softmax_axis"] = 2
+            p["softmax_axis"] = pick(rng, [2, None])       # None: attribute absent (default -1): same function, pattern names axis=-1
         elif u < 0.16 and p["key_kind"] == "BHSd-T" and Skv != Dh:
             near = "key-not-transposed"
             p.update(kperm=[0, 1, 2, 3], kshape=[B, H, Dh, Skv])
